@@ -31,7 +31,9 @@ type sharedCacheElem struct {
 	// discarded, occurs if a transaction goes wrong but was operating on the
 	// cache. So, we get two options, either roll back stuff in the cache
 	// (difficult to do) or scrap it (easy). We are going with the easy option.
-	scrapped bool
+	// It is atomic because the goroutines of one transaction that share a
+	// cache (parallel sub-queries) check and set it without a common lock.
+	scrapped atomic.Bool
 }
 
 // The cache manager allows us to reuse the same cache for multiple operations
@@ -276,7 +278,7 @@ func (t *Transaction) With(name string, readOnly bool, createFn func() (Cachable
 			}
 			t.mu.Unlock()
 		}
-		if cacheToUse.scrapped {
+		if cacheToUse.scrapped.Load() {
 			log.Debug().Str("name", name).Bool("readOnly", readOnly).Msg("Cache is scrapped, using temporary new cache")
 			/* Cold temporary start, what has happened is although the cache was
 			 * in the manager, while we were waiting for the lock on it, it got
@@ -305,7 +307,7 @@ func (t *Transaction) With(name string, readOnly bool, createFn func() (Cachable
 			/* Something went wrong, we'll scrap the cache and delete it from the
 			 * manager. */
 			t.failed.Store(true)
-			cacheToUse.scrapped = true
+			cacheToUse.scrapped.Store(true)
 			verifPoint("with:callback-failed", name)
 			t.manager.mu.Lock()
 			delete(t.manager.sharedCaches, name)
@@ -355,7 +357,7 @@ func (t *Transaction) With(name string, readOnly bool, createFn func() (Cachable
 	verifPoint("with:before-callback-new", name)
 	if err := f(s.item); err != nil {
 		t.failed.Store(true)
-		s.scrapped = true
+		s.scrapped.Store(true)
 		t.manager.mu.Lock()
 		delete(t.manager.sharedCaches, name)
 		t.manager.mu.Unlock()
@@ -378,7 +380,7 @@ func (t *Transaction) Commit(fail bool) {
 	failed := t.failed.Load() || fail
 	for s, name := range t.writtenCaches {
 		if failed {
-			s.scrapped = true
+			s.scrapped.Store(true)
 			// Only remove our cache, it may have been evicted and replaced
 			// by a healthy one in the meantime
 			if t.manager.sharedCaches[name] == s {
